@@ -172,7 +172,10 @@ func ScriptGen(o ScriptOpts) *rapid.Generator[Script] {
 			kinds = append(kinds, "mutate", "mutate")
 		}
 		if o.AllowCopy {
-			kinds = append(kinds, "copycell", "newrowother")
+			kinds = append(kinds, "copycell", "newrowother", "foreigncell")
+		}
+		if o.AllowRowErr {
+			kinds = append(kinds, "newrowzero")
 		}
 		hdrItem := o.HdrItem
 		if hdrItem == nil {
@@ -253,6 +256,11 @@ func ScriptGen(o ScriptOpts) *rapid.Generator[Script] {
 				rows = append(rows, rk{attached: true, sep: true}) // like a separator it refuses Add
 			case "newrow", "newrowsized":
 				rows = append(rows, rk{})
+			case "newrowzero":
+				rows = append(rows, rk{sep: true}) // refuses Add like a separator
+			case "foreigncell":
+				op.Items = []Item{o.Item.Draw(t, "item")}
+				rows = append(rows, rk{attached: true})
 			case "newrowcap":
 				op.Cap = rapid.IntRange(0, 12).Draw(t, "cap")
 				rows = append(rows, rk{})
